@@ -93,7 +93,7 @@ func opsFor(m *ea.Model, full bool) []string {
 	}
 	ops := []string{"Open", "W:0:8", "W:3:2", "SnapU", "SnapA", "Reload", "Grow:1"}
 	if full {
-		ops = append(ops, "Close", "W:8:16", "W:4:8", "WWO:0:8", "WWO:3:2", "Rebuild:t", "Rebuild:f", fmt.Sprintf("SetRev:%d", m.Rev+7), "Recreate")
+		ops = append(ops, "Close", "W:8:16", "W:4:8", "WWO:0:8", "WWO:3:2", "Rebuild:t", "Rebuild:f", fmt.Sprintf("SetRev:%d", m.Rev+7), "Recreate", "SetLog")
 		if len(m.Chain) > 0 {
 			ops = append(ops, fmt.Sprintf("Checkpoint:%d", len(m.Chain)-1))
 		}
